@@ -11,6 +11,7 @@ import (
 	"context"
 	"fmt"
 	"math/rand/v2"
+	"os"
 	"sort"
 	"time"
 
@@ -196,6 +197,9 @@ type seqModel struct {
 	alts map[Key][]*opRec
 	// impl: the implementation's installed entries (to follow operations of unspecified validity)
 	impl Snapshot
+	// implHeld: ids the implementation holds (an operation of unspecified validity that it accepted
+	// is held like any other while its references do not resolve)
+	implHeld map[uint64]bool
 }
 
 func (q *seqModel) note(rec *opRec, en *Entry) {
@@ -272,6 +276,8 @@ func (q *seqModel) apply(it cutItem) {
 				if !has {
 					q.m.Apply(it.rec.op, en)
 				}
+			} else if q.implHeld[it.rec.op.GetId()] && q.m.FwdRefs && !q.m.Resolvable(en) {
+				q.held[it.rec.op.GetId()] = it.rec // (an earlier version of the entry may well be installed)
 			} else if has {
 				en.Loose = true
 				q.m.Apply(it.rec.op, en)
@@ -303,6 +309,16 @@ func (q *seqModel) cascade() {
 					delete(q.held, id) // fails on retry (replace of a deleted target)
 					changed = true
 				}
+			case VEither:
+				// a held operation of unspecified validity becomes resolvable: installed or failed, as the implementation chose
+				if en != nil && q.m.Resolvable(en) {
+					if _, has := q.impl[en.Key]; has && q.impl != nil {
+						en.Loose = true
+						q.m.Apply(rec.op, en)
+					}
+					delete(q.held, id)
+					changed = true
+				}
 			}
 		}
 	}
@@ -331,7 +347,7 @@ func (e *env) matchPrefix(items []cutItem, minK int, what string, last *[2]uint6
 	if id != nil {
 		implMax = [2]uint64{id.High, id.Low}
 	}
-	q := &seqModel{m: e.model.Clone(), held: e.heldRecs(), max: e.maxElec, last: last, impl: impl}
+	q := &seqModel{m: e.model.Clone(), held: e.heldRecs(), max: e.maxElec, last: last, impl: impl, implHeld: implHeld}
 	bestK, bestDesc, bestN := -1, "", 1<<30
 	for k := 0; ; k++ {
 		okSnap := false
@@ -344,6 +360,12 @@ func (e *env) matchPrefix(items []cutItem, minK int, what string, last *[2]uint6
 			}
 			if !q.sameHeld(implHeld) {
 				n++
+			}
+			if os.Getenv("VERIF_DEBUG_PREFIX") != "" {
+				if f, err := os.OpenFile(os.Getenv("VERIF_DEBUG_PREFIX"), os.O_APPEND|os.O_CREATE|os.O_WRONLY, 0o644); err == nil {
+					fmt.Fprintf(f, "PREFIX %s k=%d diffs=%v max=%v/%v held=%v/%v\n", what, k, ds, q.max, implMax, keysOf(q.held), implHeld)
+					f.Close()
+				}
 			}
 			if n < bestN {
 				bestK, bestN = k, n
